@@ -17,7 +17,8 @@ EXTENDS Integers, Sequences, FiniteSets, TLC
 \* c.ver 1|2; c.fam "TCP4" "TCP6" "UNKNOWN" (v1) "LOCAL" (v2); c.peer "any" (no allow list)
 \* "in1" / "out1" (one allowed range; peer inside / outside), "inSpecific" / "inBroad" / "out2" (two
 \* allowed ranges of different prefix length; peer in the more specific one, in the broader one, in neither)
-Honoured(c) == c.peer \notin {"out1", "out2"}
+\* "in6" / "out6": an IPv6 peer inside / outside an allow list of one IPv4 and one IPv6 range
+Honoured(c) == c.peer \notin {"out1", "out2", "out6"}
 DeclaresAddr(c) == c.fam \in {"TCP4", "TCP6"}
 RecvExpect(c) ==
   [strip  |-> IF Honoured(c) THEN "header" ELSE "none",
